@@ -1,7 +1,7 @@
-CONSTANTS Types = {"bool", "e3", "opt", "int"}
-Rows = 3
-Depth = 2
-Dense = FALSE
+CONSTANTS Types = {"i64d", "i32d"}
+Rows = 4
+Depth = 1
+Dense = TRUE
 WithAlts = FALSE
 INIT Init
 NEXT Next
